@@ -862,8 +862,14 @@ fn w_histories(ctx: &mut Ctx) {
             }
         }
         let a = d.to_csc_pattern(&pat);
+        // a third of the histories run without regularisation and may flip the sign of diagonal entries, so that the
+        // inertia (and everything derived from the pivots' signs) changes between factorisations
+        let free_signs = rng.bool(0.33);
+        if free_signs {
+            ctx.bump("history_instances_with_sign_flips");
+        }
         let mk_opts = |perm: &Vec<usize>, signs: &Vec<i8>| {
-            let mut o = QDLDLSettingsBuilder::<f64>::default().Dsigns(signs.clone()).regularize_enable(true).regularize_eps(1e-13).regularize_delta(2e-7).build().unwrap();
+            let mut o = QDLDLSettingsBuilder::<f64>::default().Dsigns(signs.clone()).regularize_enable(!free_signs).regularize_eps(1e-13).regularize_delta(2e-7).build().unwrap();
             o.perm = Some(perm.clone());
             o
         };
@@ -891,7 +897,8 @@ fn w_histories(ctx: &mut Ctx) {
                         .map(|&i| {
                             let (r, c) = model.index_to_coord(i);
                             if r == c {
-                                signs[c] as f64 * rng.range(3.0, 9.0)
+                                let flip = if free_signs && rng.bool(0.4) { -1.0 } else { 1.0 };
+                                flip * signs[c] as f64 * rng.range(3.0, 9.0)
                             } else {
                                 rng.range(-1.0, 1.0)
                             }
